@@ -26,6 +26,13 @@ CHECKS = {
             'replacements from F(3) x tuples from family G', 'DESIGN.md 2/C04'),
     'C06': (MC[0], MC[1], 'every history over the stated alphabets up to the completed depth; '
             'exact-count / canonicity / denotation invariants in every state', 'DESIGN.md 2/C06'),
+    'C09': (MC[0], 'stateless model checking of the implementation: deviation-bounded enumeration of '
+            'reordering-trigger schedules (0, 1, 2 deviations + natural thresholds) under a controlled '
+            'trigger seam',
+            'every operation x every position of the reordering request (forced k=1..K+2, natural '
+            'thresholds, lowered REORDER_STARTS), pairs of positions over pairs of operations; result, '
+            'operands, bystanders, counts, configuration compared with the reordering-off baseline and '
+            'the model', 'DESIGN.md 2/C09'),
     'C10': (EX[0], EX[1], 'all functions x all care sets x all n up to support+3 x orders',
             'DESIGN.md 2/C10'),
     'C11': (EX[0], EX[1], 'all functions x all order pairs x target kinds x 7 copy routes; source key '
